@@ -347,6 +347,31 @@ def check(chk):
     chk.ob("DOM-38", "every coin / service switch handler that is registered is remembered for removal", len(adds) >= 2 and len(kept) == len(adds), eh.where(),
            construct=eh.ident, text="coin handlers remembered")
 
+    # each of the audit counters accumulates: it is created with the first coin's figure and added to afterwards (never overwritten),
+    # the count keys by 1 and the earnings keys by the coin's value
+    au_ = cr.methods["_audit"]
+    aucf = au_.cfg()
+    keys_ = {}
+    for n in aucf.nodes:
+        if n.kind != "stmt" or not isinstance(n.ast, (ast.Assign, ast.AugAssign)):
+            continue
+        t_ = n.ast.target if isinstance(n.ast, ast.AugAssign) else n.ast.targets[0]
+        if isinstance(t_, ast.Subscript) and src(t_.value) == "self.earnings":
+            keys_.setdefault(src(t_.slice), []).append(n)
+    n_k = 0
+    for k_, nodes_ in sorted(keys_.items()):
+        n_k += 1
+        first = [n for n in nodes_ if isinstance(n.ast, ast.Assign)]
+        more = [n for n in nodes_ if isinstance(n.ast, ast.AugAssign) and isinstance(n.ast.op, ast.Add)]
+        okk = len(first) == 1 and len(more) == 1 and src(first[0].ast.value) == src(more[0].ast.value) and src(first[0].ast.value) in ("1", "value") and \
+            aucf.guards_at(first[0].id).get("%s not in self.earnings" % k_) is True and aucf.guards_at(more[0].id).get("%s not in self.earnings" % k_) is False
+        chk.ob("DOM-38", "audit `%s` starts with the first coin's figure and is added to afterwards (its own not-yet-present test decides which)" % k_, okk,
+               au_.where(nodes_[0].ast), detail="; ".join(short(n.ast, 50) for n in nodes_), construct=au_.ident, text="audit accumulation " + k_)
+    chk.ob("DOM-38", "audit counters examined (%d)" % n_k, n_k == 4, au_.where(), nontrivial=False)
+    kinds_ = {k_: src(v[0].ast.value) for k_, v in keys_.items() if v}
+    chk.ob("DOM-38", "two audits count coins (by 1) and two sum their value", sorted(kinds_.values()) == ["1", "1", "value", "value"], au_.where(), detail=str(kinds_),
+           construct=au_.ident, text="audit kinds")
+
     # the pricing table is rebuilt from scratch every time it is calculated (the mode is restarted after service): what the loop carries
     # from tier to tier starts at zero, the table starts empty
     pt_ = cr.methods["_calculate_pricing_tiers"]
@@ -513,6 +538,7 @@ def battery():
         M("coin at the credit cap not audited", CR, "        self._add_credit_units(credit_units=value / self.credit_unit)\n        self._audit(value, audit_class, key_name)", "        if self._add_credit_units(credit_units=value / self.credit_unit):\n            self._audit(value, audit_class, key_name)", "DOM-38"),
         M("tier wrap-around carried over from the previous table", CR, "        self.pricing_tiers_wrap_around = 0\n        pricing_tiers = []", "        pricing_tiers = []", "TIER-1"),
         M("coin handlers registered a second time (F20 reverted)", CR, "        self._disable_credit_handlers()\n        self._enable_credit_handlers()", "        self._enable_credit_handlers()", "DOM-38"),
+        M("per-slot earnings overwritten", CR, "            if key_val not in self.earnings:\n                self.earnings[key_val] = value\n            else:\n                self.earnings[key_val] += value", "            self.earnings[key_val] = value", "DOM-38"),
     ]
 
 
